@@ -439,3 +439,22 @@ def op8(ctx):
         ok = b.name in [c.split("::")[-1] for c in mem]
         others = [n for n in set(c.split("::")[-1] for c in mem) if n != b.name and n != "map" and n.startswith("map")]
         yield Ob(key_of("C09-Op8", b.path, "same-name"), ok and not others, "Options::%s calls %s" % (b.name, sorted(set(c.split("::")[-1] for c in mem))), b.loc())
+
+
+@rule("C09-Op9", "C09", 2, "the open functions compute with the file's length and the caller's offset / capacity before anything is validated: no such subtraction can "
+      "underflow (a file shorter than the mapping offset must be refused with an error, not with a panic)", configs=MEMCFG)
+def op9(ctx):
+    for name in ("map_in", "map_mut_in"):
+        b = ctx.facts.one(r"^memory::Memory::<R, PR, H>::%s$" % name)
+        ev, res = ctx.eval(b, no_inline=(r"\{closure",))
+        subs = [a for a in res.log if a["kind"] == "arith" and a["op"] == "Sub" and not a.get("unchecked")]
+        bad = 0
+        for a in subs:
+            fs = set(canon(f) for f in ctx.facts_of(ev, a))
+            x, y = canon(a["a"]), canon(a["b"])
+            if not Order(fs).le(y, x):
+                bad += 1
+                role = "file-size-minus-offset" if ("metadata" in show(x) and "offset" in show(y)) else "subtraction"
+                yield Ob(key_of("C09-Op9", b.path, role, bad), False,
+                         "Sub(%s, %s) in %s is not dominated by a guard: a file shorter than that panics (overflow checks) or wraps instead of being refused" % (short(x, 70), short(y, 50), name), ctx.loc(a))
+        yield Ob(key_of("C09-Op9", b.path, "subtractions"), True, "%d subtraction(s) on the open path, %d unguarded" % (len(subs), bad), b.loc(), trivial=bad == 0)
